@@ -363,7 +363,8 @@ pub fn sat_method(r: &RuleSpec, p: &Probe) -> Option<bool> {
     match r.exclude_methods {
         None => Some(listed),
         Some(true) => Some(!listed),
-        Some(false) => None,
+        // an explicit `false` is the plain method list (the flag says: do not exclude)
+        Some(false) => Some(listed),
     }
 }
 
@@ -668,6 +669,23 @@ pub fn deviations() -> Vec<(usize, String, Box<dyn Fn(&mut RuleSpec) + Send + Sy
         Box::new(|r| {
             r.methods = Some(vec!["GET".into(), "POST".into()]);
             r.exclude_methods = Some(true);
+        }),
+    );
+    // the exclusion flag written out as `false`: a plain method list
+    add(
+        3,
+        "methods=[GET] exclude=false",
+        Box::new(|r| {
+            r.methods = Some(vec!["GET".into()]);
+            r.exclude_methods = Some(false);
+        }),
+    );
+    add(
+        3,
+        "methods=[GET,POST] exclude=false",
+        Box::new(|r| {
+            r.methods = Some(vec!["GET".into(), "POST".into()]);
+            r.exclude_methods = Some(false);
         }),
     );
     // headers
